@@ -219,6 +219,13 @@ impl Searcher {
             }
         }
 
+        // A search cut off by the clock has not examined every move (and the
+        // last score it saw may come from an aborted subtree), so its result is
+        // not a valid bound for this position: do not cache it
+        if self.timer.should_stop() {
+            return best_result;
+        }
+
         let bound = self.determine_bound(best_result.score, original_alpha, beta);
         self.store_in_transposition_table(board, &best_result, depth, bound);
 
